@@ -33,6 +33,7 @@ REV = {
  'fix: after a crash the allocators ignored': ('D1', [('C01','C01.R4')]),
  'fix: a crash during mkfs left a disk': ('D2', [('C01','C01.R5')]),
  'fix: READDIR/READDIRPLUS with a cookie that is not': ('D33', [('C11','C11.V9')]),
+ 'fix: Resize forgot a background shrink that was still pending': ('D7', [('C05','C05.F4'),('C12','C12.Z7')]),
  'fix: SETATTR of the size was accepted for directories': ('D35', [('C11','C11.V12'),('C04','C04.S7')]),
  'fix: Resize hands on the result of the in-transaction Shrink': ('D34', [('C05','C05.F1')]),
  'fix: a WRITE aborted for lack of space': ('D32', [('C09','C09.A2'),('C10','C10.W4')]),
